@@ -148,6 +148,8 @@ pub(crate) struct HotReloader {
 impl HotReloader {
     /// Starts hot-reloading.
     fn start(events: Receiver<Events>, source: Box<dyn Source + Send>) -> Self {
+        #[cfg(assets_manager_verif)]
+        use detsim::thread;
         let (cache_msg_tx, cache_msg_rx) = channel::unbounded();
         let answers = Arc::new(Answers::default());
         let answers_clone = answers.clone();
